@@ -12,6 +12,7 @@
 // interval_distance, interval, init_max, init_dim, structure_cast, left/right/top/bottom/front/back,
 // operator== between equal boxes, intersects/contains/extend with empty operands.
 #include <vf.hpp>
+#include <heavy.hpp>
 
 #include <fcppt/array/object_impl.hpp>
 #include <fcppt/cast/static_cast_fun.hpp>
@@ -66,6 +67,8 @@ char const *tn()
     return "long";
   else if constexpr (std::is_same_v<T, unsigned>)
     return "unsigned";
+  else if constexpr (std::is_same_v<T, vf::heavy>)
+    return "heavy";
   else
     return "?";
 }
@@ -1182,11 +1185,22 @@ void vf_slice_1() { all_for_type<long>(); }
 #if VF_IN_SLICE(2)
 void vf_slice_2() { all_for_type<unsigned>(); }
 #endif
+#if VF_IN_SLICE(3)
+// a scalar whose move is not a copy (common/heavy.hpp): a moved-from operand reads as 7777
+void vf_slice_3()
+{
+  all_for_type<vf::heavy>();
+  vf::count("heavy/constructed", vf::heavy_stats().constructed);
+  vf::count("heavy/moved", vf::heavy_stats().moved);
+  vf::count("heavy/moved-from-reads(observed)", vf::heavy_stats().moved_from_reads);
+}
+#endif
 
 #if VF_SLICE < 0
 void vf_slice_0();
 void vf_slice_1();
 void vf_slice_2();
+void vf_slice_3();
 namespace
 {
 void body()
@@ -1204,6 +1218,7 @@ void body()
   vf_slice_0();
   vf_slice_1();
   vf_slice_2();
+  vf_slice_3();
 }
 }
 VF_MAIN(body)
